@@ -59,7 +59,8 @@ type loopInfo struct {
 	ord    int
 	spec   *LoopSpec
 	// state captured at the header after havoc
-	env *specEnv
+	env      *specEnv
+	inclSelf bool // (hints) also the definitions already translated in the block itself
 }
 
 type fnTrans struct {
@@ -101,6 +102,8 @@ type fnTrans struct {
 	assumed  map[string]bool // extern / trusted contracts relied upon
 	modTerms []modTarget
 	dry      bool
+	oblFrom  *ssa.BasicBlock // block an invariant obligation is checked from (tr.cur is nil there)
+	ancCache map[*ssa.BasicBlock]map[int]bool
 	shadow   map[ssa.Value]string
 	retOrd   map[*ssa.Return]int
 }
@@ -265,6 +268,11 @@ func (tr *fnTrans) oblige(kind, name, goal, src string, pos token.Pos) *Obligati
 		in = tr.inB[tr.cur]
 	}
 	o := &Obligation{Name: tr.key + "/" + name, Fn: tr.key, Kind: kind, Goal: implies(in, goal), Pos: len(tr.items), Src: src, tr: tr}
+	if tr.cur != nil {
+		o.onlyBlk = tr.ancestors(tr.cur)
+	} else if tr.oblFrom != nil {
+		o.onlyBlk = tr.ancestors(tr.oblFrom)
+	}
 	if tr.c != nil {
 		o.Props = tr.c.Props
 	}
@@ -759,6 +767,35 @@ func (tr *fnTrans) preludeHeaps(uses []string) {
 	}
 }
 
+// ancestors: the blocks from which b can be reached without taking a back edge (b included).  Hypotheses
+// produced by other blocks are guarded by reachability conditions that exclude b's, so they are left out of
+// b's obligations (fewer, never more, hypotheses).
+func (tr *fnTrans) ancestors(b *ssa.BasicBlock) map[int]bool {
+	if tr.ancCache == nil {
+		tr.ancCache = map[*ssa.BasicBlock]map[int]bool{}
+	}
+	if m, ok := tr.ancCache[b]; ok {
+		return m
+	}
+	m := map[int]bool{}
+	stack := []*ssa.BasicBlock{b}
+	for len(stack) > 0 {
+		x := stack[len(stack)-1]
+		stack = stack[:len(stack)-1]
+		if m[x.Index] {
+			continue
+		}
+		m[x.Index] = true
+		for _, p := range x.Preds {
+			if !tr.backEdge[[2]int{p.Index, x.Index}] {
+				stack = append(stack, p)
+			}
+		}
+	}
+	tr.ancCache[b] = m
+	return m
+}
+
 // touchedByMods: cells of map `name` that a step framed by (allocBefore, targets) may change
 func (tr *fnTrans) touchedByMods(allocBefore, name string, targets []modTarget) string {
 	cs := []string{app("<", "(sarr s!s)", "0"), app(">=", "(sarr s!s)", allocBefore)}
@@ -1027,7 +1064,7 @@ func (tr *fnTrans) loopEnv(li *loopInfo, phiVal func(*ssa.Phi) Term, heap map[st
 	}
 	best := map[string]cand{}
 	for _, b := range tr.fn.Blocks {
-		if !(b.Dominates(h)) || b == h {
+		if !(b.Dominates(h)) || (b == h && !li.inclSelf) {
 			continue
 		}
 		depth := domDepth(b)
@@ -1126,6 +1163,11 @@ func (tr *fnTrans) loopMods(li *loopInfo) (maps []string, allocs bool) {
 }
 
 func (tr *fnTrans) checkInvariant(li *loopInfo, from, header *ssa.BasicBlock, cond string, phase string) {
+	// several edges into the header (continue statements, if/else arms): number them
+	tr.counters[fmt.Sprintf("inv%d.%s", li.ord, phase)]++
+	if n := tr.counters[fmt.Sprintf("inv%d.%s", li.ord, phase)]; n > 1 {
+		phase = fmt.Sprintf("%s#%d", phase, n)
+	}
 	idx := predIndex(header, from)
 	heap := tr.outHeap[from]
 	if heap == nil {
@@ -1145,7 +1187,8 @@ func (tr *fnTrans) checkInvariant(li *loopInfo, from, header *ssa.BasicBlock, co
 	}, heap, alloc)
 	save := tr.cur
 	tr.cur = nil
-	defer func() { tr.cur = save }()
+	tr.oblFrom = from
+	defer func() { tr.cur = save; tr.oblFrom = nil }()
 	if li.spec != nil {
 		for i, inv := range li.spec.Invs {
 			t, err := tr.spec(inv.E, env)
@@ -1163,13 +1206,13 @@ func (tr *fnTrans) checkInvariant(li *loopInfo, from, header *ssa.BasicBlock, co
 		f := tr.frameFormula(m, tr.heapEntry(m), tr.heapIn(heap, m), "alloc0", tr.modTerms)
 		tr.oblige("frame", fmt.Sprintf("inv[%d].%s[frame:%s]", li.ord, phase, m), implies(cond, f), "", token.NoPos)
 	}
-	if phase == "keep" && li.spec != nil && li.spec.Dec != nil && li.env != nil {
+	if strings.HasPrefix(phase, "keep") && li.spec != nil && li.spec.Dec != nil && li.env != nil {
 		d1, err1 := tr.spec(li.spec.Dec.E, env)
 		d0, err0 := tr.spec(li.spec.Dec.E, li.env)
 		if err1 != nil || err0 != nil {
 			tr.errorf("%s: loop %d decreases: %v %v", tr.key, li.ord, err0, err1)
 		} else {
-			tr.oblige("dec", fmt.Sprintf("dec[%d]", li.ord), implies(cond, and(app("<=", "0", d0.S), app("<", d1.S, d0.S))), li.spec.Dec.Src, token.NoPos)
+			tr.oblige("dec", fmt.Sprintf("dec[%d].%s", li.ord, phase), implies(cond, and(app("<=", "0", d0.S), app("<", d1.S, d0.S))), li.spec.Dec.Src, token.NoPos)
 		}
 	}
 }
